@@ -47,7 +47,7 @@ func runOriginated(t *rapid.T, rec *evid.Rec, id string) {
 		n.OutVersion = gomavlib.V2
 	}
 	before := since2015(time.Now())
-	if err := n.Initialize(); err != nil {
+	if err := initNode(&n); err != nil {
 		t.Fatalf("BROKEN: %v", err)
 	}
 	r := sim.StartRecorder(n, sim.Pacing{Kind: "fast"}, nil)
